@@ -140,26 +140,6 @@ func (nd *node) dirEntries() []fs.DirEntry {
 	return entries
 }
 
-// dirNames returns a slice of file names from a directory ordered by name.
-func (nd *node) dirNames() []string {
-	l := len(nd.children)
-	if l == 0 {
-		return nil
-	}
-
-	names := make([]string, l)
-	i := 0
-
-	for name := range nd.children {
-		names[i] = name
-		i++
-	}
-
-	sort.Strings(names)
-
-	return names
-}
-
 // isDir reports whether the node is a directory.
 func (nd *node) isDir() bool {
 	nd.mu.RLock()
